@@ -472,8 +472,10 @@ theorem recvRequest_sent (H : Http) (method : Bytes) (uri : UriParts) (ext : Opt
   subst hh
   unfold recvRequest
   rw [tryFrom_wireFields H _ l hok.pseudo hok.regular hcap]
-  simp only [Res.bind, Header.intoRequestParts, hok.hosts, Bool.not_true, Bool.and_false,
-    Bool.false_eq_true, if_false]
+  -- a request h3 builds carries no `:status` (D-12f: the receiver refuses one that does)
+  have hstatus : (Pseudo.request method uri ext).status = none := rfl
+  simp only [Res.bind, Header.intoRequestParts, hstatus, Option.isSome_none, hok.hosts, Bool.not_true,
+    Bool.and_false, Bool.false_eq_true, if_false]
   have hb := hok.builds
   have hauthority : (Pseudo.request method uri ext).authority = uri.authority := rfl
   have hmethod : (Pseudo.request method uri ext).method = some method := rfl
@@ -507,6 +509,8 @@ theorem recvResponse_sent (H : Http) (status : Nat) (l : List FieldLine) (h1 : 1
   have hp : PseudoBack H { status := some status, len := 1 } :=
     ⟨by simp, by simp, by simp, by simp, by intro st hst; cases hst; exact ⟨h1, h2⟩, by simp⟩
   rw [tryFrom_wireFields H _ l hp hl hcap]
+  -- a response h3 builds carries `:status` and no request pseudo-header field (D-12f: the receiver
+  -- refuses one that does): `Pseudo.hasRequestField` of it evaluates to `false`
   rfl
 
 theorem recvTrailers_sent (H : Http) (l : List FieldLine) (hl : ∀ f ∈ l, RegularOk f)
